@@ -126,6 +126,6 @@ def handle (line : String) : String :=
     | .error .batchException => "err BatchException"
     | .error .notDsl => "err notDsl"
     | .ok st =>
-      joinWith " | " (s!"ok xin={showPairs (externalInputs st)}" :: (List.range st.nJobs).map (showPlan st))
+      joinWith " | " (s!"ok xin={showPairs (externalInputs st)} xup={showPairs (localUploads st "$R".toList)}" :: (List.range st.nJobs).map (showPlan st))
 
 def main : IO Unit := mapLines handle
